@@ -73,7 +73,7 @@ def run(rep: Report, tier: str) -> None:
 
     check_private_shadowing(rep, rb0, [gen])  # a per-asset reset must bind the attribute the lookups read (private names are mangled per class)
     # ---------------------------------------------------------------- C19.a
-    ra = rep.rule("C19.a", "store/lookup agreement: each writer records its row's transaction -> row_index + 1; readers build '#<sheet of own asset>.a<row>:z<row>' or no link", floor=9)
+    ra = rep.rule("C19.a", "store/lookup agreement: each writer records its row's transaction -> row_index + 1; readers build '#<sheet of own asset>.a<row>:z<row>' or no link", floor=9, follows_calls=True)
     for name in ("__generate_in_table", "__generate_out_table", "__generate_intra_table"):
         fi, loop = fr.writer(name)
         rep.analysed(fi)
@@ -286,11 +286,37 @@ def _border_style_returns_current_year(m) -> bool:
     return ok
 
 
+class _Case:
+    """One case of a returning path whose value is a conditional: the path's conditions plus the case's own."""
+
+    def __init__(self, path, ret, extra) -> None:
+        self.path, self.ret, self.extra, self.vars, self.exit = path, ret, extra, path.vars, path.exit
+
+    def conds(self):
+        return list(self.path.conds()) + list(self.extra)
+
+
+def _split_conditional_return(p, ret=None, extra=()):
+    from ..norm import mk_not
+
+    ret = p.ret if ret is None else ret
+    if ret is not None and ret[0] == "ite":
+        yield from _split_conditional_return(p, ret[2], tuple(extra) + (ret[1],))
+        yield from _split_conditional_return(p, ret[3], tuple(extra) + (mk_not(ret[1]),))
+    elif extra:
+        yield _Case(p, ret, extra)
+    else:
+        yield p
+
+
 def _check_formula_builder(rep: Report, rule: str, fr, fi, kind: str) -> None:
     m, norm = fr.m, fr.norm
     se = SymExec(norm, norm.ctx_for(fi, subst_locals=False), inline_helpers=False)
     paths = se.run(fi.body)
-    rets = [p for p in paths if p.exit == "return"]
+    rets = []
+    for p in paths:
+        if p.exit == "return":
+            rets.extend(_split_conditional_return(p))  # a formula built by a shared helper comes back as `<numeric formula> if isinstance(value, ...) else <text formula>`
     formulas = [p for p in rets if p.ret is not None and p.ret[0] == "fstr"]
     bare = [p for p in rets if p.ret == ("sym", "value")]
     others = [p for p in rets if p not in formulas and p not in bare]
